@@ -6,7 +6,7 @@
    instant, generation read, upload attempt if any) and the instant the task returned. *)
 From Coq Require Import List Bool NArith.
 Import ListNotations.
-From Setec Require Import Server.Backup Server.BackupProofs Corr.Common Corr.Run_C17.
+From Setec Require Import Base.SMap Base.Bytes Server.KV Server.KVProofs Server.Backup Server.BackupProofs Corr.Common Corr.Run_C17.
 Open Scope N_scope.
 
 (* it terminates when the context is cancelled: the task returns exactly at the cancellation
@@ -97,6 +97,28 @@ Theorem C17_upload_count : forall tl its x, backup_run tl = Some (its, x) ->
 Proof. exact run_upload_count. Qed.
 Print Assumptions C17_upload_count.
 
+(* which client calls are writes is the store model's verdict: a call replaces the database
+   file iff the sequential specification needs a save for it in the current state (C02's
+   [needs_save]: a put unless it repeats the bytes of the newest existing version; an activate
+   of an existing other version; a delete-version of an existing non-active version; a delete
+   of an existing secret) and that save succeeds.  So delete-version, activate and delete are
+   writes exactly like put, and [C17_catches_up]/[C17_change_driven] cover them. *)
+Theorem C17_write_iff_needs_save : forall ok (s : kvs N) o, Inv s ->
+  is_saved (snd (kv_step N.eqb ok s o)) = ok && needs_save N.eqb s o.
+Proof. exact saved_iff_needs_save. Qed.
+Print Assumptions C17_write_iff_needs_save.
+
+(* caught up at every wake-up: after an iteration whose upload (if any) was acknowledged, the
+   newest acknowledged backup is the file of the generation current at that wake-up - and the
+   next wake-up is one period after this one ended (C17_rate), the last one within a period of
+   the cancellation (C17_cancel): once writes stop, one more period suffices *)
+Theorem C17_caught_up_each_wake : forall tl its x, backup_run tl = Some (its, x) ->
+  forall pre it post, its = pre ++ it :: post ->
+  (forall a, i_up it = Some a -> a_ok a = true) ->
+  lastok 0 (pre ++ [it]) = i_gen it.
+Proof. exact run_caught_up_each_wake. Qed.
+Print Assumptions C17_caught_up_each_wake.
+
 (* the monitors evaluated on the observed log mean what they say *)
 Theorem C17_monitor_bytes_sound : forall l last, mon_bytes last l = true ->
   forall pre b1 mid b2 post, l = pre ++ (true, b1) :: mid ++ (true, b2) :: post ->
@@ -129,9 +151,10 @@ Example demo_run :
 Proof. vm_compute. reflexivity. Qed.
 
 Example demo_accepted :
-  Run_C17.check (Sc [36500; 40500; 400500] [100300] [200400] [U 0 true 0; U 2000 false 0; U 70000 true 1] 1000700
+  Run_C17.check (Sc [EPut 36500 true [x6b] 1; EPut 40500 true [x6b] 2; EPut 100300 false [x6b] 3; EPut 400500 true [x6b] 4]
+                    [200400] [U 0 true 0; U 2000 false 0; U 70000 true 1] 1000700
                     [(0, 1, true); (60000, 3, false); (122000, 3, true); (252000, 4, true); (432000, 5, true)]
-                    [1; 2; 2; 3; 4] (Some 1000700) 5 1) = true.
+                    [1; 2; 2; 3; 4] (Some 1000700) 5 1 4) = true.
 Proof. vm_compute. reflexivity. Qed.
 
 (* an upload every minute although nothing changed: rejected by the change monitor *)
@@ -145,11 +168,11 @@ Example bad_body_rejected : mon_snapshot [36500] 0 [(0, 0, true)] = false /\ mon
 Proof. vm_compute. auto. Qed.
 (* no retry after a failure / a task that outlives its context: rejected by the comparison *)
 Example no_retry_rejected :
-  Run_C17.check (Sc [] [] [] [U 0 false 0] 200700 [(0, 1, false)] [1] (Some 200700) 1 0) = false.
+  Run_C17.check (Sc [] [] [U 0 false 0] 200700 [(0, 1, false)] [1] (Some 200700) 1 0 1) = false.
 Proof. vm_compute. reflexivity. Qed.
 Example late_exit_rejected :
-  Run_C17.check (Sc [] [] [] [] 200700 [(0, 1, true)] [1] (Some 240000) 1 0) = false
-  /\ Run_C17.check (Sc [] [] [] [] 200700 [(0, 1, true)] [1] None 1 0) = false.
+  Run_C17.check (Sc [] [] [] 200700 [(0, 1, true)] [1] (Some 240000) 1 0 1) = false
+  /\ Run_C17.check (Sc [] [] [] 200700 [(0, 1, true)] [1] None 1 0 1) = false.
 Proof. vm_compute. auto. Qed.
 
 (* the generation counter advanced by a save that FAILED (at 100.3 s): the task uploads the
@@ -158,7 +181,28 @@ Proof. vm_compute. auto. Qed.
 Example unchanged_bytes_rejected : mon_bytes None [(true, 1); (false, 2); (true, 1)] = false.
 Proof. vm_compute. reflexivity. Qed.
 Example failed_save_bumped_generation_rejected :
-  Run_C17.check (Sc [] [100300] [] [] 300700 [(0, 1, true); (120000, 1, true)] [1; 1] (Some 300700) 2 0) = false
-  /\ Run_C17.check (Sc [] [100300] [] [] 300700 [(0, 1, true)] [1] (Some 300700) 2 0) = false
-  /\ Run_C17.check (Sc [] [100300] [] [] 300700 [(0, 1, true)] [1] (Some 300700) 1 0) = true.
+  Run_C17.check (Sc [EPut 100300 false [x6b] 1] [] [] 300700 [(0, 1, true); (120000, 1, true)] [1; 1] (Some 300700) 2 0 1) = false
+  /\ Run_C17.check (Sc [EPut 100300 false [x6b] 1] [] [] 300700 [(0, 1, true)] [1] (Some 300700) 2 0 1) = false
+  /\ Run_C17.check (Sc [EPut 100300 false [x6b] 1] [] [] 300700 [(0, 1, true)] [1] (Some 300700) 1 0 1) = true.
+Proof. vm_compute. auto. Qed.
+
+(* which calls are writes: put 1, put 2 (new version), put 2 again (same bytes: NOT a write),
+   activate 2, activate 2 again (NOT a write), delete-version 1, delete-version 1 again (NOT),
+   delete-version 2 (active: NOT), delete of an absent secret (NOT), delete: 5 writes *)
+Definition kinds_demo : list dbev :=
+  [EPut 10500 true [x6b] 1; EPut 20500 true [x6b] 2; EPut 30500 true [x6b] 2; EAct 40500 true [x6b] 2;
+   EAct 50500 true [x6b] 2; EDelV 70500 true [x6b] 1; EDelV 80500 true [x6b] 1; EDelV 90500 true [x6b] 2;
+   EDel 100500 true [x6a]; EDel 200500 true [x6b]].
+Example kinds_classified :
+  map snd (fst (classify [] kinds_demo)) = [true; true; false; true; false; true; false; false; false; true].
+Proof. vm_compute. reflexivity. Qed.
+
+(* a delete-version as the LAST write (at 70.5 s, after the upload at 60 s): the model uploads it
+   at 120 s; a run in which that upload is missing (the generation was not advanced) is rejected
+   three times over: by the comparison, by the final generation, by the bytes at the end *)
+Example delete_version_last_write :
+  let evs := [EPut 10500 true [x6b] 1; EPut 20500 true [x6b] 2; EDelV 70500 true [x6b] 2] in
+  Run_C17.check (Sc evs [] [] 400700 [(0, 1, true); (60000, 3, true); (120000, 4, true)] [1; 2; 3] (Some 400700) 4 0 3) = true
+  /\ Run_C17.check (Sc evs [] [] 400700 [(0, 1, true); (60000, 3, true)] [1; 2] (Some 400700) 3 0 0) = false
+  /\ Run_C17.check (Sc evs [] [] 400700 [(0, 1, true); (60000, 3, true); (120000, 4, true)] [1; 2; 3] (Some 400700) 4 0 2) = false.
 Proof. vm_compute. auto. Qed.
